@@ -2,42 +2,40 @@
   C15 — no bytes from the network crash the node or make it allocate without bound.
 
   Model: `LemoModel.Frame` (Peer.readConn / handle / unpackFrame / AesDecrypt / PKCS5UnPadding /
-  CheckCode, readHandshakeBuf + ecies Decrypt length arithmetic), tied to /repo by `hx c15`.
-  `dec` (AES-CBC decryption), `pointOk`, `macOk` (ECIES validity) are universally quantified
-  parameters; `R` ranges over connections (`flat`, `chunked`, anything `Lawful`).
+  CheckCode, readHandshakeBuf + ecies Decrypt length arithmetic, Peer.Close), tied to /repo by
+  `hx c15`.  `dec` (AES-CBC decryption), `pointOk`, `macOk` (ECIES validity) are universally
+  quantified parameters; `R` ranges over connections (`flat`, `chunked`, anything `Lawful`).
 
-  The `…Fixed` definitions are THE CODE AS IT IS NOW (they are what the driver runs and what the
-  correspondence sweep compares with /repo).  The un-suffixed `run`, `unpackFrame`, `hsStep`,
-  `eciesOpen` are the code BEFORE the repair commits
-      ba190d7 (aes.go: AesDecrypt length check)      1eafa5e (peer.go: unpackFrame ≥ 4 bytes)
-      529e8a0 (handshake.go: MaxPackageLength bound)  fdba898 (ecies.go: whole IV block)
+  THE LIVE MODEL KEEPS THE PANICS.  `unpackG g` / `eciesOpenG g` are written with the partial Go
+  primitives `cryptBlocks`, `sliceTo4`, `sliceFrom4`, `makeBytes` (`none` = panic) and take the
+  repair guards as a parameter: `liveGuards` (all on) is the code as it is now and what the driver
+  runs; `noGuards` is provably the pre-repair model (`unpackG_noGuards`, `eciesOpenG_false`).
+      ba190d7 aes.go  len % blockSize        1eafa5e peer.go  len(originData) < 4
+      fdba898 ecies.go whole IV block        529e8a0 handshake.go  length ≤ MaxPackageLength
 
-  HEADLINE — the FULL statements of the property, proved for the code as it is now:
-  * parse_total        `parseFixed_total`, `parseFixed_total_chunked`: ∀ cipher, constants, byte
-                       stream, segmentation: no event of the read loop is a panic.
-  * hs_total           `hsFixed_total`: the pre-handshake reader never panics.
-  * parse_alloc_bound  `parse_alloc_bound` (one read-loop step requests ≤ 6 + 2·MaxPackageLength;
-                       `parse_alloc_complete`: a completely received frame of n bytes costs 6 + 2n)
-                       and `hsFixed_alloc_bound` (same constant for the pre-handshake reader).
-  * split_invariant    `split_invariant_fixed`, `hsFixed_split_invariant` (and the pre-repair forms).
-  * code_range         `code_range_fixed`, `code_range_fixed_chunked`: only codes ≤ 0x1F, never the
-                       heartbeat, reach the dispatcher.
+  HEADLINE (code as it is now)
+  * no panic      `parseFixed_total`, `parseFixed_total_chunked`, `hsFixed_total` — by
+                  `unpackG_live_no_panic` / `eciesOpenG_guarded_no_panic`, which USE the guards to
+                  show the `none` branches unreachable; each guard is necessary:
+                  `guard_aesLen_needed`, `guard_codeLen_needed`, `guard_eciesBlock_needed`.
+  * allocation    per step `parse_alloc_bound`, `parse_alloc_complete`, `hsFixed_alloc_bound`;
+                  per connection `run_alloc_cumulative(_chunked)`, `hsFixed_alloc_cumulative`:
+                  Σ ≤ 2·|received| + 6 + MaxPackageLength.  The additive constant is attained with
+                  6 bytes (`alloc_not_proportional`): the clause "in proportion to the bytes
+                  received" is NOT met — open finding, see props `partial`.
+  * segmentation  `split_invariant_fixed`, `hsFixed_split_invariant` (from `chunkRead_spec`).
+  * code range    `code_range_fixed`.          * fuel  `runWith_fuel_irrelevant`.
   * `parseFixed_agrees`: the repairs change nothing on streams that did not crash the old code.
-  * "at worst it drops the connection" — dropping must itself be safe when several goroutines do
-    it at once (readLoop on garbage, handlePeer on the rejected message before it, heartbeatLoop,
-    runPeer, UnRegister): `close_mutex_safe`, `close_exactly_once` (any number of closers, every
-    schedule: no panic, stopCh closed exactly once), `close_race_free` (the same for the code as
-    described by the regenerated fact table `Close.closeSites`), refutation without the mutex:
-    `close_race_refuted` (two closers, check-check-close-close).
+  * Close         `close_mutex_safe`, `close_exactly_once` (any number of closers, every finite
+                  schedule: no panic, stopCh closed exactly once — safety, not liveness),
+                  `close_race_refuted` (no mutex: check-check-close-close panics).
 
-  DOCUMENTATION of what the repairs close (about the code before the commits above):
-  * `parse_total_refuted_cryptBlocks` (7 bytes, any key), `parse_total_refuted_shortPlain`
-    (22 bytes), `parse_total_false`; exact guard `parse_total_partial` / `parse_panic_of_unguarded`
-    / `unpackFrame_panic_iff` (panic ⇔ some frame cut by the reader violates `FrameGuard`).
-  * `hs_total_refuted` (104 bytes from an unauthenticated remote), exact guard
-    `eciesOpen_panic_iff`, `hs_total_partial`.
-  * `hs_alloc_bound_refuted` (6 bytes ⇒ 1 GiB), `hs_alloc_partial`.
-  The same witnesses evaluated on the current model: `witness_*_now`.
+  DOCUMENTATION of what the repairs closed (code before the commits above):
+  `parse_total_refuted_cryptBlocks`, `parse_total_refuted_shortPlain`, `parse_total_false`,
+  `unpackFrame_panic_iff`, `parse_total_partial`, `parse_panic_of_unguarded`, `hs_total_refuted`,
+  `eciesOpen_panic_iff`, `hs_panic_only_short_envelope`, `hs_alloc_bound_refuted`.
+  Not registered (helpers / samples, kept for reading): `witness_*_now`, `close_race_free`,
+  `close_sites_guarded`, `code_range`(legacy), `sliceCode_unreachable`, `hs_alloc_partial`, …
 -/
 import LemoModel.Frame
 import LemoProofs.Lemmas.FrameLemmas
